@@ -271,7 +271,7 @@
 #define EIT_OK(it, g)                                                         \
   ((it).endVertex == EIT_END_OF(g) && (it).vertex <= (it).endVertex &&        \
    ((g)->size == 0                                                            \
-        ? ((it).neighbour.r.len == 0 && !(it).neighbour.poisoned && (it).neighbour.idx == BG_IT_SINGULAR_IDX && (it).neighbour.p.len == 0) \
+        ? ((it).neighbour.r.len == 0 && (it).neighbour.r.up == 0 && (it).neighbour.r.nP == 0 && (it).neighbour.r.nQ == 0 && !(it).neighbour.poisoned && (it).neighbour.idx == BG_IT_SINGULAR_IDX && (it).neighbour.p.len == 0 && (it).neighbour.p.up == 0) \
         : (!(it).neighbour.poisoned && (it).neighbour.idx == (bg_size)(it).vertex && \
            (it).neighbour.bound <= (g)->size && BG_CNT_AX((it).neighbour.r, (it).neighbour.idx) && \
            IT_P_AX((it).neighbour) && BG_IT_CUR_OK((it).neighbour) && \
@@ -308,6 +308,33 @@
   ((bg_size)(it).vertex < (bg_size)G_P ? (bg_size)0 : (bg_size)(it).vertex == (bg_size)G_P ? C_NQ((it).neighbour.p) : D_CNT_PQ(g))
 #define EIT_SEEN_QP(it, g)                                                    \
   ((bg_size)(it).vertex < (bg_size)G_Q ? (bg_size)0 : (bg_size)(it).vertex == (bg_size)G_Q ? (it).neighbour.p.nP : D_CNT_QP(g))
+/* the same with every leaf wrapped by F (graph-const functions: the rows need no wrapping) */
+#define EIT_SEEN_PQ_(it, g, F)                                                \
+  ((bg_size)F((it).vertex) < (bg_size)G_P ? (bg_size)0 : (bg_size)F((it).vertex) == (bg_size)G_P ? (G_P == G_Q ? F((it).neighbour.p.nP) : F((it).neighbour.p.nQ)) : D_CNT_PQ(g))
+#define EIT_SEEN_QP_(it, g, F)                                                \
+  ((bg_size)F((it).vertex) < (bg_size)G_Q ? (bg_size)0 : (bg_size)F((it).vertex) == (bg_size)G_Q ? F((it).neighbour.p.nP) : D_CNT_QP(g))
+#define EIT_AT_PQ_(it, F) (F((it).vertex) == G_P && F((it).neighbour.cur) == G_Q)
+#define EIT_AT_QP_(it, F) (F((it).vertex) == G_Q && F((it).neighbour.cur) == G_P)
+/* ---- undirected edge iterator: g is the LUG object; only entries >= own row index are yielded */
+#define U_FRESH_WF(g)                                                         \
+  (__CPROVER_is_fresh(g, sizeof(*(g))) && BG_ADJ_FRESH(U_B(g)->adjacencyList) && \
+   BG_MAP_FRESH(U_B(g)->edgeLabels) && U_WF_SAFE(g))
+/* pointwise form of `the entry under the cursor is not below its row index` */
+#define UEIT_UP_OK(it)                                                        \
+  ((it).neighbour.r.len == 0 || !((bg_size)(it).vertex == (bg_size)G_Q && (it).neighbour.cur == G_P && G_P < G_Q))
+#define UEIT_OK(it, g) (EIT_OK(it, U_B(g)) && UEIT_UP_OK(it))
+/* the frontier follows this iterator; rank counts the upper entries before it */
+#define UEIT_TRACKED(it, g)                                                   \
+  (bg_ghost_frontier.a == &U_B(g)->adjacencyList &&                           \
+   (U_B(g)->size == 0 ? (bg_ghost_frontier.F == 0 && bg_ghost_frontier.rank == 0 && bg_ghost_frontier.belowUp == 0) \
+                      : (bg_ghost_frontier.F == (bg_size)(it).vertex &&       \
+                         bg_ghost_frontier.rank == bg_ghost_frontier.belowUp + (it).neighbour.p.up)))
+#define UEIT_LOOP(it, e, g)                                                   \
+  ((it).graph == (g) && (e).graph == (g) && UEIT_OK(it, g) && BG_SCRATCH_CLEAN_NF && \
+   (e).vertex == (e).endVertex && (e).endVertex == EIT_END_OF(U_B(g)) && (e).neighbour.r.len == 0 && \
+   !(e).neighbour.poisoned && (e).neighbour.idx == (U_B(g)->size == 0 ? BG_IT_SINGULAR_IDX : (bg_size)(e).vertex))
+/* copies of the unordered pair {G_P,G_Q} among the positions the iterator has yielded */
+#define UEIT_SEEN(it, g) (G_P <= G_Q ? EIT_SEEN_PQ(it, U_B(g)) : EIT_SEEN_QP(it, U_B(g)))
 /* the common part of every edges() loop invariant: position valid, end() fixed */
 #define EIT_LOOP(it, e, g)                                                    \
   ((it).graph == (g) && (e).graph == (g) && EIT_OK(it, g) && BG_SCRATCH_CLEAN_NF && \
